@@ -48,6 +48,12 @@ uint64_t y_table_n;
 #define Y_REP15(F) F(0) F(1) F(2) F(3) F(4) F(5) F(6) F(7) F(8) F(9) F(10) F(11) F(12) F(13) F(14)
 #define Y_REP15B(F) F(0) F(1) F(2) F(3) F(4) F(5) F(6) F(7) F(8) F(9) F(10) F(11) F(12) F(13) F(14)
 #define Y_REP16(F) F(0) F(1) F(2) F(3) F(4) F(5) F(6) F(7) F(8) F(9) F(10) F(11) F(12) F(13) F(14) F(15)
+/* conjunctions over all indices (universal statements without quantifiers) */
+#define ALL15(F) (F(0) && F(1) && F(2) && F(3) && F(4) && F(5) && F(6) && F(7) && F(8) && F(9) && F(10) && F(11) && F(12) && F(13) && F(14))
+#define ALL15B(F) (F(0) && F(1) && F(2) && F(3) && F(4) && F(5) && F(6) && F(7) && F(8) && F(9) && F(10) && F(11) && F(12) && F(13) && F(14))
+#define ALL16(F) (ALL15(F) && F(15))
+#define ALL7(F) (F(0) && F(1) && F(2) && F(3) && F(4) && F(5) && F(6))
+#define ANY7(F) (F(0) || F(1) || F(2) || F(3) || F(4) || F(5) || F(6))
 #define Y_MIN(T, a, b) ((T)(b) < (T)(a) ? (T)(b) : (T)(a))
 #define Y_BITSET_SET(p, i) (*(p) = (uint16_t)(*(p) | (uint16_t)(1u << (i))))
 #define Y_BITSET_TEST(p, i) (((*(p)) >> (i)) & 1u)
